@@ -120,3 +120,11 @@ package handshake
 //@ ensures h.Hostname == old(h.Hostname) && h.PrivKey == old(h.PrivKey) && h.TokenTTL == old(h.TokenTTL) && h.Hmac == old(h.Hmac) && h.ran == old(h.ran)
 //@ ensures h.opaque.PeerID == old(h.opaque.PeerID) && h.opaque.IsToken == old(h.opaque.IsToken)
 //@ noframe
+
+// a handshake object that is reused starts from a blank state: nothing of the previous request (in particular not
+// "this is a token for peer A") survives into the opaque blob minted for the next one
+//@ func (h *PeerIDAuthHandshakeServer) Reset
+//@ prop C19
+//@ ensures !h.opaque.IsToken && h.opaque.PeerID == "" && h.opaque.ClientPublicKey == nil && h.opaque.ChallengeClient == "" && h.opaque.Hostname == ""
+//@ ensures !h.ran && h.state == 0
+//@ noframe
